@@ -277,8 +277,9 @@ func c09Histories(c *run.Ctx, s *model.Schema, sdl string) int {
 	type vkind struct {
 		def    bool
 		defVal bool
+		loose  bool // declared `Boolean` with no default: a call may leave it out, send null or send something that is no Boolean
 	}
-	vks := []vkind{{false, false}, {true, true}, {true, false}}
+	vks := []vkind{{false, false, false}, {true, true, false}, {true, false, false}, {false, false, true}}
 	steps := 0
 	n := 0
 	for _, bk := range []string{"iface", "any", "reflect"} {
@@ -300,6 +301,9 @@ func c09Histories(c *run.Ctx, s *model.Schema, sdl string) int {
 									vd.Type = model.Named("Boolean")
 									vd.HasDefault = true
 									vd.Default = k.defVal != flip
+								}
+								if k.loose {
+									vd.Type = model.Named("Boolean")
 								}
 								return vd
 							}
@@ -351,6 +355,10 @@ func c09Histories(c *run.Ctx, s *model.Schema, sdl string) int {
 							text := doc.Print(model.LayoutN(n))
 							exe, perr := h.Root.ParseExecutableString(text)
 							if perr != nil {
+								if sk.loose || ik.loose {
+									c.Count("nullable_variable_as_condition_refused_at_parse", 1)
+									continue
+								}
 								c.Violation("c09-history", map[string]interface{}{"backend": bk, "document": text, "diag": "valid document rejected: " + perr.Error()})
 								continue
 							}
@@ -363,7 +371,7 @@ func c09Histories(c *run.Ctx, s *model.Schema, sdl string) int {
 							for _, op := range ops {
 								for sv := 0; sv < 3; sv++ {
 									for iv := 0; iv < 3; iv++ {
-										if (sv == 2 && !sk.def) || (iv == 2 && !ik.def) {
+										if (sv == 2 && !sk.def && !sk.loose) || (iv == 2 && !ik.def && !ik.loose) {
 											continue
 										}
 										calls = append(calls, call{op, sv, iv})
@@ -401,10 +409,35 @@ func c09Histories(c *run.Ctx, s *model.Schema, sdl string) int {
 									vars["i"] = cl.i == 1
 								}
 								present := !truth(cl.s, sk, flip) && truth(cl.i, ik, flip)
+								// a call that gives a condition no Boolean at all (left out, null, a string): what it answers is not
+								// judged by the truth table, what it leaves behind is - by the calls that follow it
+								unjudged := false
+								junk := func(name string) {
+									unjudged = true
+									switch r.Intn(3) {
+									case 0:
+										vars[name] = nil
+									case 1:
+										vars[name] = "yes"
+									}
+								}
+								if cl.s == 2 && sk.loose {
+									junk("s")
+								}
+								if cl.i == 2 && ik.loose {
+									junk("i")
+								}
 								given := fmt.Sprint(vars)
 								out := Do(h, Request{Exe: exe, OpName: cl.op, Vars: vars, KeepVars: keep}, nil)
 								steps++
 								trace = append(trace, fmt.Sprintf("%s%s", cl.op, given))
+								if unjudged {
+									c.Count("calls_with_a_condition_that_is_no_boolean(unjudged)", 1)
+									if out.Panic != nil {
+										c.Count("panics_left_to_C03", 1)
+									}
+									continue
+								}
 								m, _ := out.Data.(map[string]interface{})
 								_, has := m[key]
 								_, sib := m["sib"]
